@@ -425,8 +425,9 @@ Proof.
     destruct (autodel s) as [|qn rest]; [exact H|].
     rewrite Hfx. cbn [negb].
     assert (H0 : QI (s <| autodel := rest |>)) by sq.
-    pose proof (QI_vhost_delete_queue _ qn false false H0) as Hd.
-    destruct (vhost_delete_queue false (s <| autodel := rest |>) qn false false) as [[s1 e1] r1]. exact Hd.
+    destruct (get_queue _ qn) as [qu0|]; [|exact H0]. destruct (q_autodel qu0); [|exact H0].
+    pose proof (QI_vhost_delete_queue _ qn true false H0) as Hd.
+    destruct (vhost_delete_queue false (s <| autodel := rest |>) qn true false) as [[s1 e1] r1]. exact Hd.
   - (* LPersistTick *)
     cbn [fst]. apply fold_left_preserves.
     + intros s0 k H0. eapply allq_same_queues; [apply queues_store_confirm|exact H0].
